@@ -52,6 +52,31 @@ impl<'c, Q: Queue> Interp<'c, Q> {
             Op::DeserSeq { pairs, carrier, cross } => self.do_deser_seq(pairs, *carrier, *cross),
             // outside the fault runner the wrapped operation simply runs
             Op::WithFault { op, .. } => self.apply(op),
+            Op::DuringUnwind { op } => {
+                type Payload = Box<dyn std::any::Any + Send>;
+                struct Cleanup<'a, 'c, Q: Queue>(&'a mut Interp<'c, Q>, &'a Op, &'a mut Option<Payload>);
+                impl<'a, 'c, Q: Queue> Drop for Cleanup<'a, 'c, Q> {
+                    fn drop(&mut self) {
+                        // a panic of the operation itself must not escape a destructor during unwinding (that
+                        // aborts the process): it is kept and raised again once the harness's own unwinding is over
+                        let r = std::panic::catch_unwind(std::panic::AssertUnwindSafe(|| self.0.apply(self.1)));
+                        if let Err(e) = r {
+                            *self.2 = Some(e);
+                        }
+                    }
+                }
+                struct HarnessUnwind;
+                self.stats.hit("during_unwind");
+                let mut inner: Option<Payload> = None;
+                let r = std::panic::catch_unwind(std::panic::AssertUnwindSafe(|| {
+                    let _g = Cleanup(self, op, &mut inner);
+                    std::panic::resume_unwind(Box::new(HarnessUnwind));
+                }));
+                debug_assert!(r.is_err());
+                if let Some(e) = inner {
+                    std::panic::resume_unwind(e);
+                }
+            }
             Op::IterMutEach { how, k, rw, rwmask } => self.do_iter_mut_each(*how, *k, *rw, *rwmask),
             Op::Snapshot => self.do_snapshot(),
             Op::RestoreFrom => self.do_restore_from(),
